@@ -109,7 +109,7 @@ func (s *SymStr) String() string {
 
 func isSymbolic(v value) bool {
 	switch v.(type) {
-	case *Term, *FRat, *FTab, *SymStr:
+	case *Term, *FRat, *FTab, *FApx, *SymStr:
 		return true
 	}
 	return false
